@@ -146,8 +146,10 @@ Section Read.
   Inductive idxopt := IdxDefault | IdxFalse | IdxNames (l : list Name).
   Record ropts := mk_ropts { o_cols : option (list Name); o_index : idxopt }.
 
-  (* to_pandas lines 738-745 + _pre_allocate: (data columns in output order, index names) *)
-  Definition out_columns (h : handle) (o : ropts) : res (list Name * list Name) :=
+  (* to_pandas lines 738-745 + _pre_allocate: (data columns in output order, index names).
+     `keep` = the pinned tree, where a partition column chosen as index was ALSO appended to the data
+     columns (and the index never filled); the repaired tree appends only those not in the index. *)
+  Definition out_columns_gen (keep : bool) (h : handle) (o : ropts) : res (list Name * list Name) :=
     let cats := cats_of h in
     let all := h_cols h ++ cats in
     let index := match o_index o with IdxDefault => h_index h | IdxFalse => [] | IdxNames l => l end in
@@ -155,9 +157,12 @@ Section Read.
     let columns := columns0 ++ filter (fun i => negb (mem i columns0)) index in
     if forallb (fun c => mem c all) columns then
       let cols := filter (fun c => negb (mem c index)) columns in
-      let cs := filter (fun c => mem c columns) cats in
-      Ok (dedup (cols ++ cs), index)
+      let cs := filter (fun c => mem c columns) cats in                           (* pre_allocate: cats restricted to the request *)
+      let cs_cols := if keep then cs else filter (fun c => negb (mem c index)) cs in   (* _pre_allocate *)
+      Ok (dedup (cols ++ cs_cols), index)
     else Fail ValueError.
+  Definition out_columns := out_columns_gen false.
+  Definition out_columns_pinned := out_columns_gen true.
 
   Record frame := mk_frame { f_cols : list Name; f_index : list Name; f_rows : list (option R) }.
 
@@ -281,7 +286,7 @@ Arguments mk_ropts {Name}. Arguments o_cols {Name}. Arguments o_index {Name}.
 Arguments OFrames {R Name}. Arguments ONat {R Name}.
 Arguments RToPandas {Name}. Arguments RIter {Name}. Arguments RHead {Name}. Arguments RCount {Name}. Arguments RLen {Name}.
 Arguments assign_slice {R}. Arguments fill {D R}. Arguments read_rows {D R}.
-Arguments cats_of {D Name}. Arguments mem {Name}. Arguments dedup {Name}. Arguments out_columns {D Name}.
+Arguments cats_of {D Name}. Arguments mem {Name}. Arguments dedup {Name}. Arguments out_columns_gen {D Name}. Arguments out_columns {D Name}. Arguments out_columns_pinned {D Name}.
 Arguments to_pandas {D R Name}. Arguments getitem_slice {D Name}. Arguments getitem_pick {D Name}.
 Arguments index_of {D}. Arguments frame_empty {R Name}. Arguments iter_row_groups {D R Name}.
 Arguments head_loop {D}. Arguments frame_head {R Name}. Arguments head_gen {D R Name}.
